@@ -259,7 +259,62 @@ def agg_facts(gr_tree, gr_src):
         if not (ok and in_branch):
             raise Untranslatable("agg: a HAVING clause of another shape / in another place than the grouping-sets branch")
         out["cube_having"] = True
+    out["gid_guard"] = gid_guard(f)
     return out
+
+
+def gid_guard(f):
+    """the GROUPING_ID expansion loop:  for col in cols: [v = col.column_expression]; if <guard>: <E>.set("expressions", [x.expression for x in group_by_cols])
+    -> Coq bool term over `is_gid` (the aggregate is grouping_id) and `old_empty` (its argument list is still empty)"""
+    loops = [n for n in ast.walk(f) if isinstance(n, ast.For) and dotted(n.target) == "col" and dotted(n.iter) == "cols"]
+    if len(loops) != 1 or loops[0].orelse:
+        raise Untranslatable("agg: expected exactly one `for col in cols:` loop (GROUPING_ID expansion)")
+    names = {"col.column_expression"}
+    body = [st for st in loops[0].body if not (isinstance(st, ast.Expr) and isinstance(st.value, ast.Constant))]
+    while body and isinstance(body[0], ast.Assign) and len(body[0].targets) == 1 and isinstance(body[0].targets[0], ast.Name) \
+            and dotted(body[0].value) in names:
+        names.add(body[0].targets[0].id)
+        body = body[1:]
+    if len(body) != 1 or not isinstance(body[0], ast.If) or body[0].orelse or len(body[0].body) != 1:
+        raise Untranslatable("agg: GROUPING_ID loop body is not a single `if`")
+    st = body[0].body[0]
+    ok = (isinstance(st, ast.Expr) and isinstance(st.value, ast.Call) and isinstance(st.value.func, ast.Attribute)
+          and st.value.func.attr == "set" and dotted(st.value.func.value) in names and len(st.value.args) == 2
+          and isinstance(st.value.args[0], ast.Constant) and st.value.args[0].value == "expressions")
+    if ok:
+        elt, tgt, it = _single_listcomp(st.value.args[1], "GROUPING_ID expansion")
+        # x.expression copies the keys with their aliases (listed finding C06/grouping_id-with-aliased-cube-key-raises);
+        # x.column_expression is its repair -- the model takes the un-aliased keys
+        ok = isinstance(elt, ast.Attribute) and elt.attr in ("expression", "column_expression") \
+            and dotted(elt.value) == dotted(tgt) and dotted(it) == "group_by_cols"
+    if not ok:
+        raise Untranslatable('agg: GROUPING_ID expansion is not <col expr>.set("expressions", [x.expression for x in group_by_cols])')
+
+    def tr(n):
+        if isinstance(n, ast.BoolOp) and isinstance(n.op, ast.And):
+            parts = [tr(v) for v in n.values]
+            acc = parts[-1]
+            for q in reversed(parts[:-1]):
+                acc = f"(andb {q} {acc})"
+            return acc
+        if isinstance(n, ast.BoolOp) and isinstance(n.op, ast.Or):
+            parts = [tr(v) for v in n.values]
+            acc = parts[-1]
+            for q in reversed(parts[:-1]):
+                acc = f"(orb {q} {acc})"
+            return acc
+        if isinstance(n, ast.Compare) and len(n.ops) == 1 and isinstance(n.ops[0], ast.Eq) and isinstance(n.left, ast.Attribute) \
+                and n.left.attr == "this" and dotted(n.left.value) in names and isinstance(n.comparators[0], ast.Constant) \
+                and n.comparators[0].value == "GROUPING_ID":
+            return "is_gid"
+        if isinstance(n, ast.UnaryOp) and isinstance(n.op, ast.Not) and isinstance(n.operand, ast.Attribute) \
+                and n.operand.attr == "expressions" and dotted(n.operand.value) in names:
+            return "old_empty"
+        if isinstance(n, ast.Attribute) and n.attr == "expressions" and dotted(n.value) in names:
+            return "(negb old_empty)"
+        raise Untranslatable("agg: GROUPING_ID guard: " + ast.dump(n)[:100])
+
+    return tr(body[0].test)
 
 
 def shortcuts(gr_tree):
@@ -500,12 +555,14 @@ def function_classes(repo):
                 raise Untranslatable(f"functions.{st.name}: not Column.invoke_expression_over_column(col, expression.X)")
             defs[st.name] = dotted(r.value.args[1]).split(".", 1)[1]
         elif isinstance(st, ast.FunctionDef) and st.name == "count_distinct":
-            srcseg = (ast.get_source_segment(src, st) or "").replace("\n", " ")
-            calls = [n for n in ast.walk(st) if isinstance(n, ast.Call) and dotted(n.func) == "expression.Count"]
-            ok = len(calls) == 1 and len(calls[0].keywords) == 1 and calls[0].keywords[0].arg == "this" \
-                and isinstance(calls[0].keywords[0].value, ast.Call) and dotted(calls[0].keywords[0].value.func) == "expression.Distinct"
-            if not ok:
-                raise Untranslatable("functions.count_distinct: not expression.Count(this=expression.Distinct(...))")
+            # the same tree on every engine: no early return, no engine-specific alternative
+            body = _body(st)
+            want = ["columns = [Column.ensure_col(x) for x in [col] + list(cols)]",
+                    "return Column(expression.Count(this=expression.Distinct(expressions=[x.column_expression for x in columns])))"]
+            got = [ast.unparse(x) for x in body]
+            if got != want or [a.arg for a in st.args.args] != ["col"] or st.args.vararg is None or st.args.vararg.arg != "cols":
+                raise Untranslatable("functions.count_distinct: body is not `columns = [...]; return Column(expression.Count(this="
+                                     "expression.Distinct(expressions=[x.column_expression for x in columns])))`: " + " | ".join(got)[:200])
             defs["count_distinct"] = "CountDistinct"
         elif isinstance(st, ast.Assign) and len(st.targets) == 1 and isinstance(st.targets[0], ast.Name) \
                 and st.targets[0].id in ("count", "sum", "avg", "mean", "min", "max", "count_distinct", "countDistinct") \
@@ -560,6 +617,7 @@ def generate(repo: str):
          f"Definition canon_fn (func_name : string) : string := {nm['canon']}.",
          f"Definition name_fmt (func_name name : string) : string := {nm['fmt']}.",
          f"Definition cube_having : bool := {b(ag['cube_having'])}.",
+         f"Definition gid_guard (is_gid old_empty : bool) : bool := {ag['gid_guard']}.",
          f"Definition fmt_lowers_fn : bool := {b(nm['lowers'])}.",
          f"Definition through_sanitize : bool := {b(nm['through'])}.",
          f"Definition sanitize_on_duckdb : bool := {b(san_flag)}.",
@@ -574,7 +632,7 @@ def generate(repo: str):
          f"Definition k_cube_gen : option opk := {optk(k_cube)}.",
          f"Definition k_dfagg_gen : option opk := {optk(k_dfagg)}.",
          "Definition gen_gcfg : gcfg := mkGcfg wrap_needed_group init_wraps_group group_agg_kind k_groupBy_gen k_cube_gen "
-         "k_dfagg_gen agg_select_append cube_having.",
+         "k_dfagg_gen agg_select_append cube_having (gid_guard true false).",
          "Definition gen_ncfg : ncfg := mkNcfg short_lit canon_fn name_fmt through_sanitize sanitize_on_duckdb fn_class count_star "
          "count_alias dict_key_is_col.",
          "Definition group_cfg : cfg := mkCfg wrap_needed_group kind_of init_wraps_group order_append limit_merge."]
@@ -584,6 +642,7 @@ def generate(repo: str):
         {"name": "agg_select_append / keys_first / group_uses_unaliased / sets_use_unaliased / dict_key_is_col",
          "from": "group.py: _BaseGroupedData.agg", "hash": ag["hash"],
          "value": {k: ag[k] for k in ("append", "keys_first", "group_unaliased", "sets_unaliased", "dict_key_is_col", "cube_having")}},
+        {"name": "gid_guard", "from": "group.py: agg, GROUPING_ID expansion loop", "coq": ag["gid_guard"]},
         {"name": "short_lit", "from": "group.py: avg/mean/max/min/sum", "value": lits},
         {"name": "count shortcut", "from": "group.py: count", "value": {"arg": count_arg, "alias": count_alias}},
         {"name": "decorators", "from": "dataframe.py", "value": {"groupBy": k_groupby, "cube": k_cube, "agg": k_dfagg}},
